@@ -1,4 +1,5 @@
 //! Deterministic simulation harness for breez/trampoline (see /verif/DESIGN.md).
+pub mod check;
 pub mod cli;
 pub mod content;
 pub mod engine;
@@ -6,9 +7,11 @@ pub mod node;
 pub mod ops;
 pub mod oracle;
 pub mod reference;
+pub mod replay;
 pub mod rng;
 pub mod sched;
 pub mod seam;
+pub mod special;
 pub mod world;
 
 pub use cli::cli;
